@@ -29,5 +29,5 @@ def run(tier, seed):
                 "Oracle A (key-independent): every coefficient of every component equals the exact sum_p dec_p (*) row_p (reference decomposition, 64-bit schoolbook products) within T = 2 kpl max(1,Bg/2^10)+2 units. "
                 "Oracle B: phase(result) = m (phase(c) - truncation term) + sum_p dec_p (*) rowerr_p within (1+k|s|_1) T. Blind rotation: phase(acc') = X^(sum bara_i s_i) phase(acc) within the analytic tolerance "
                 "written in harness/c09.cpp. Non-trivial = m not in {0,1} or extreme TLWE content or a structured exponent vector; distinct by case hash.")
-    res.assumptions = ["tGswExternProduct is also exercised with result == b (in-place update of an accumulator): the pristine code decomposes b before clearing result and so supports it; the oracle is the same product formula", "reference decomposition = the digit representation validated by C12", "library-encrypted rows: errors measured exactly, so the noisy case is an identity, not a statistic"]
+    res.assumptions = ["tGswExternProduct is also exercised with result == b (in-place update of an accumulator): the pristine code decomposes b before clearing result and so supports it; the oracle is the same product formula", "reference decomposition = the digit representation validated by C12", "library-encrypted rows: errors measured exactly, so the noisy case is an identity, not a statistic; each measured row error must itself be within 9 alpha + 16 units of the gadget message, so a wrong row cannot hide in it"]
     return core.finish(res)
